@@ -1,3 +1,4 @@
+//@ requires base
 // ---- rivia error types, reduced to their *kind* (R5: formatted message / payload / backtrace dropped)
 // ASSUMED[errors-kind]: errors/*.rs constructors build the variant named like the constructor; `.into()`/`?` wrap it in RvError keeping the variant (From impls in errors/mod.rs)
 #[derive(PartialEq, Eq, Structural, Clone, Copy)]
